@@ -214,7 +214,11 @@ class Impl:
         rows = self.rows[fname]
         instrs = [self.build_instr(rows[n], lv) for n, lv in body]
         sub = self.Subroutine(instructions=instrs, netqasm_version=(v0, v1), app_id=app)
-        first = bytes(sub)
+        try:
+            first = bytes(sub)
+        except Exception as e:  # the implementation refuses what its own layout calls in range
+            return dict(final_body=[(n, list(lv)) for n, lv in body], final_app=app, bytes_obj=None, bytes_fresh=None,
+                        dec=None, err="first serialisation: " + type(e).__name__ + ": " + str(e)[:120], first=None)
         str(sub)  # printing is another reader of the object
         final = [(n, list(lv)) for n, lv in body]
         ndebug = 0
